@@ -62,13 +62,19 @@ def run(ctx, report: Report) -> None:
 
     # ---- R1 ---------------------------------------------------------------------------------------------
     r1 = report.rule('C18-R1', 'value shapes follow the HTML microsyntaxes', floor=1)
+    regex_uses = {}
+    parse_value_types(ctx, sorted(RANGE_TYPES), regex_uses)
+    if not regex_uses:
+        raise AnalysisError('Inputs.parse_value consults no value-shape regex for any range type (anchor vanished)')
     for name, (full, subset, gap) in REFS.items():
         r = inv.by_name(f'css_match.{name}')
-        uses = [c for c in ast.walk(mmod.tree) if isinstance(c, ast.Call) and isinstance(c.func, ast.Attribute)
-                and isinstance(c.func.value, ast.Name) and c.func.value.id == name]
-        hows = {c.func.attr for c in uses}
-        if not hows or not hows <= {'match', 'fullmatch'}:
-            raise AnalysisError(f'css_match.{name}: used with {sorted(hows)}, expected match/fullmatch')
+        # how parse_value applies the regex (match / fullmatch), observed by interpreting parse_value for every range type
+        hows = regex_uses.get(name, set())
+        if not hows:
+            r1.note(f'css_match.{name} is not consulted by Inputs.parse_value for any range type on this tree')
+            continue
+        if not hows <= {'match', 'fullmatch'}:
+            raise AnalysisError(f'css_match.{name}: applied with {sorted(hows)}, expected match/fullmatch')
         s = rx.System()
         try:
             A = s.add('code', r.pattern, r.flags)
@@ -216,32 +222,18 @@ def run(ctx, report: Report) -> None:
                              f'are {sorted(RANGE_TYPES)}')
             css_in = types
 
-    def types_compared(fn, var):
-        out = set()
-        for c in ast.walk(fn):
-            if isinstance(c, ast.Compare) and isinstance(c.left, ast.Name) and c.left.id == var:
-                v = inv.folder.try_ev('css_match', c.comparators[0], default=None)
-                if isinstance(v, str):
-                    out.add(v)
-                elif isinstance(v, tuple):
-                    out.update(x for x in v if isinstance(x, str))
-        return out
-    pv_types = types_compared(pfn, pfn.args.args[1].arg)
+    # which input types Inputs.parse_value understands: the function is interpreted for every type name with an abstract match
+    # that has every group of whichever value-shape regex is consulted (validators answer yes); a range type must come out
+    # as a tuple, any other type as None.  match_range's own handling of each type is the table of R5.
+    parsed_types = parse_value_types(ctx, sorted(RANGE_TYPES | {'text', 'email', 'checkbox', 'datetime', 'tel', 'hidden', ''}))
+    r4.instance({'function': 'Inputs.parse_value', 'types_parsed_to_a_tuple': sorted(parsed_types)}, key='parse_value')
+    r4.obligation(parsed_types == RANGE_TYPES)
+    if parsed_types != RANGE_TYPES:
+        r4.violation('css_match parse_value types', 'soupsieve/css_match.py (Inputs.parse_value)',
+                     f'parse_value parses input types {sorted(parsed_types)}; the range-typed inputs are {sorted(RANGE_TYPES)} '
+                     f'(missing {sorted(RANGE_TYPES - parsed_types)}, extra {sorted(parsed_types - RANGE_TYPES)})')
     _, mr = src.func('css_match.CSSMatch.match_range')
     itype_var = None
-    for st in walk_no_nested(mr):
-        if isinstance(st, ast.Assign) and isinstance(st.targets[0], ast.Name) and "'type'" in unparse(st.value):
-            itype_var = st.targets[0].id
-    if itype_var is None:
-        raise AnalysisError('match_range: input type variable not found')
-    mr_types = types_compared(mr, itype_var)
-    for what, got, node in (('parse_value', pv_types, pfn), ('match_range', mr_types, mr)):
-        r4.instance({'function': what, 'types': sorted(got)}, key=what)
-        r4.obligation(got == RANGE_TYPES)
-        if got != RANGE_TYPES:
-            r4.violation(f'css_match {what} types', mmod.where(node),
-                         f'{what} handles input types {sorted(got)}; the range-typed inputs are {sorted(RANGE_TYPES)} '
-                         f'(missing {sorted(RANGE_TYPES - got)}, extra {sorted(got - RANGE_TYPES)})')
     if css_in is None:
         raise AnalysisError('CSS_IN_RANGE definition not found')
 
@@ -250,66 +242,38 @@ def run(ctx, report: Report) -> None:
 
     # ---- R6 ---------------------------------------------------------------------------------------------
     r6 = report.rule('C18-R6', 'every string a value-shape regex accepts is converted (no accepted value is lost in int()/float())', floor=3)
-    from ..callgraph import CallGraph
-    from ..excflow import ExcFlow, INT_WS
-    cg = ctx.get('callgraph', lambda: CallGraph(ctx.types, src))
-    ef = ExcFlow(ctx, cg)
-    for q, f_ in mmod.functions.items():
-        if not q.startswith('Inputs.'):
-            continue
-        for c in [n for n in walk_no_nested(f_) if isinstance(n, ast.Call) and call_name(n) in ('int', 'float') and n.args]:
-            if inv.folder.try_ev('css_match', c.args[0], default=None) is not None:
-                continue
-            if call_name(c) == 'int':
-                base = inv.folder.try_ev('css_match', c.args[1], default=10) if len(c.args) > 1 else 10
-                digits = '0-9a-fA-F' if base == 16 else '0-9'
-                dom = f'{INT_WS}[+-]?[{digits}]+(?:_[{digits}]+)*{INT_WS}'
-            else:
-                dom = (f'{INT_WS}[+-]?(?:[0-9]+(?:_[0-9]+)*\\.?(?:[0-9]+(?:_[0-9]+)*)?|\\.[0-9]+(?:_[0-9]+)*)'
-                       f'(?:[eE][+-]?[0-9]+(?:_[0-9]+)*)?{INT_WS}')
-            ok, why = ef.group_language_ok(mmod, f_, c.args[0], dom, 0, None)
-            r6.instance({'function': q, 'conversion': unparse(c)[:60], 'accepted_strings_inside_the_domain': ok, 'why': why},
-                        key=f'{q}|{unparse(c)[:60]}')
-            r6.obligation(ok is True)
-            if ok is False:
-                r6.violation(f'css_match.{q} {unparse(c)[:50]} loses accepted values', mmod.where(c),
-                             f'{q}: `{unparse(c)[:60]}` - {why}. The value passed the shape regex, so it is a valid HTML value; a '
-                             f'conversion error here is swallowed by the digit-limit handler of parse_value and the valid value is '
-                             f'treated as missing (the control is then always in range / never bounds a range)')
-            elif ok is None:
-                # a helper that converts named groups of a match handed in by its callers: check each caller's regex/groups
-                a0 = c.args[0]
-                params = [a.arg for a in f_.args.args] + ([f_.args.vararg.arg] if f_.args.vararg else [])
-                handled = False
-                if isinstance(a0, ast.Call) and isinstance(a0.func, ast.Attribute) and a0.func.attr == 'group' \
-                        and isinstance(a0.func.value, ast.Name) and a0.func.value.id in params:
-                    mpos = [a.arg for a in f_.args.args if a.arg not in ('self', 'cls')].index(a0.func.value.id)
-                    for q2, f2 in mmod.functions.items():
-                        for site in [n for n in walk_no_nested(f2) if isinstance(n, ast.Call) and isinstance(n.func, ast.Attribute)
-                                     and n.func.attr == f_.name and len(n.args) > mpos and isinstance(n.args[mpos], ast.Name)]:
-                            names_ = [inv.folder.try_ev('css_match', a, default=None) for a in site.args[mpos + 1:]]
-                            regs = ef.regex_of_match_var(mmod, f2, site.args[mpos].id)
-                            if not regs or not all(isinstance(x, str) for x in names_):
-                                continue
-                            handled = True
-                            import re._parser as _sp
-                            regs = [(r_, h_) for r_, h_ in regs if all(g in _sp.parse(r_.pattern, r_.flags).state.groupdict for g in names_)]
-                            for rgx, _ in regs:
-                                for g in names_:
-                                    s_ = rx.System()
-                                    G = s_.add('g', rgx.pattern, rgx.flags, group=g)
-                                    D = s_.add('d', dom, 0)
-                                    s_.freeze()
-                                    w = rx.included(G, D)
-                                    r6.instance({'function': q, 'called_from': q2, 'regex': rgx.name, 'group': g, 'counterexample': w},
-                                                key=f'{q}|{q2}|{rgx.name}|{g}')
-                                    r6.obligation(w is None)
-                                    if w is not None:
-                                        r6.violation(f'css_match.{q} via {q2} {rgx.name}:{g} loses accepted values', mmod.where(site),
-                                                     f'{q2} converts group {g!r} of {rgx.name} with `{unparse(c)[:40]}` (in {q}); the group can be '
-                                                     f'{w!r}, outside the domain of the conversion: a valid value is treated as missing')
-                if not handled:
-                    r6.note(f'{q}: `{unparse(c)[:60]}`: {why} - not decided for this site')
+    from ..excflow import INT_WS
+    # which conversion every group of every value-shape regex goes through, observed by interpreting parse_value per range type
+    # with marked group values and recording stand-ins for int() and float() (wherever the calls sit: in parse_value, in a
+    # helper, behind a table of converters)
+    convs = conversion_census(ctx)
+    if len(convs) < 3:
+        raise AnalysisError(f'only {len(convs)} int()/float() conversions of regex groups observed in Inputs.parse_value (anchor vanished)')
+    for (rname, g, fn_, base), itypes in sorted(convs.items(), key=str):
+        rgx = inv.by_name(rname)
+        if fn_ == 'int':
+            digits = '0-9a-fA-F' if base == 16 else '0-9'
+            dom = f'{INT_WS}[+-]?[{digits}]+(?:_[{digits}]+)*{INT_WS}'
+        else:
+            dom = (f'{INT_WS}[+-]?(?:[0-9]+(?:_[0-9]+)*\\.?(?:[0-9]+(?:_[0-9]+)*)?|\\.[0-9]+(?:_[0-9]+)*)'
+                   f'(?:[eE][+-]?[0-9]+(?:_[0-9]+)*)?{INT_WS}')
+        try:
+            s_ = rx.System()
+            G = s_.add('g', rgx.pattern, rgx.flags, group=g)
+            D = s_.add('d', dom, 0)
+            s_.freeze()
+            w = rx.included(G, D)
+        except rx.Unsupported as e:
+            raise AnalysisError(f'{rname} group {g}: outside the exact regex model: {e}')
+        r6.instance({'regex': rname, 'group': g, 'conversion': f'{fn_}(..., {base})' if fn_ == 'int' else 'float(...)', 'types': sorted(itypes),
+                     'counterexample': w}, key=f'{rname}|{g}|{fn_}|{base}')
+        r6.obligation(w is None)
+        if w is not None:
+            r6.violation(f'css_match.Inputs.parse_value {rname}:{g} loses accepted values', rgx.where,
+                         f'Inputs.parse_value (type {sorted(itypes)[0]}) converts group {g!r} of {rname} with {fn_}(); the group can be {w!r}, '
+                         f'outside the domain of the conversion. The value passed the shape regex, so it is a valid HTML value; the '
+                         f'conversion error is swallowed by the digit-limit handler of parse_value and the valid value is treated as '
+                         f'missing (the control is then always in range / never bounds a range)')
 
     # ---- R7 ---------------------------------------------------------------------------------------------
     r7 = report.rule('C18-R7', 'all parsed values of one input type have one arity (tuples are compared lexicographically)', floor=1)
@@ -339,23 +303,111 @@ def run(ctx, report: Report) -> None:
             try:
                 stubs_ = {f'css_match.{q_}': (lambda *a__, **k__: True) for q_ in mmod.functions if q_.startswith('Inputs.validate')}
                 stubs_['re.Pattern.match'] = matcher
-                res = _call(ctx, 'css_match.Inputs._parse_value', [itype, 'v'], {}, stubs_, None)
+                res = _call(ctx, 'css_match.Inputs.parse_value', [itype, 'v'], {}, stubs_, None)
             except _R:
                 continue
             except miniev.Unsupported as e:
-                raise AnalysisError(f'Inputs._parse_value({itype!r}): outside the evaluable fragment: {e}')
+                raise AnalysisError(f'Inputs.parse_value({itype!r}): outside the evaluable fragment: {e}')
             if isinstance(res, (tuple, list)):
                 arities.setdefault(len(res), dict(used))
         r7.instance({'type': itype, 'tuple_lengths': sorted(arities)}, key=f'arity|{itype}')
         r7.obligation(len(arities) <= 1)
         if len(arities) > 1:
             ex = {k_: v_.get('optional') for k_, v_ in arities.items()}
-            r7.violation(f'css_match.Inputs._parse_value arity {itype}', mmod.where(src.func('css_match.Inputs._parse_value')[1]),
+            r7.violation(f'css_match.Inputs.parse_value arity {itype}', mmod.where(src.func('css_match.Inputs.parse_value')[1]),
                          f'type={itype}: parsed values come out as tuples of lengths {sorted(arities)} depending on which optional '
                          f'groups are present ({ex}); tuples of different length compare lexicographically (the shorter one first), so '
                          f'two spellings of the same instant (10:30 and 10:30:00) are ordered, and min/max written one way and the value '
                          f'the other way give the wrong range verdict')
 
+
+
+def parse_value_types(ctx, candidates, uses=None):
+    """The type names for which Inputs.parse_value returns a tuple when the value has the shape the type asks for."""
+    import re._parser as sp
+    from ..interp import Raised, call_function
+    from ..tables import match_obj
+    src, inv = ctx.src, ctx.consts
+    mmod = src.mod('css_match')
+    sample = {'year': '2000', 'month': '01', 'day': '02', 'hour': '10', 'minutes': '30', 'week': '05', 'value': '7'}
+    by_pattern = {r_.pattern: r_ for r_ in inv.regexes if r_.module == 'css_match' and r_.kind == 'module'}
+
+    def matcher(how):
+        def f(rx_obj, text, *a_):
+            r_ = by_pattern.get(rx_obj.get('pattern'))
+            if r_ is None:
+                raise miniev.Unsupported('match on a regex outside the inventory')
+            if uses is not None:
+                uses.setdefault(r_.name.split('.')[-1], set()).add(how)
+            groups = {n_: sample.get(n_, '30') for n_ in sp.parse(r_.pattern, r_.flags).state.groupdict}
+            groups[0] = text
+            return match_obj(groups)
+        return f
+    out = set()
+    stubs = {f'css_match.{q_}': (lambda *a__, **k__: True) for q_ in mmod.functions if q_.startswith('Inputs.validate')}
+    for how in ('match', 'fullmatch', 'search'):
+        stubs[f're.Pattern.{how}'] = matcher(how)
+    for itype in candidates:
+        try:
+            res = call_function(ctx, 'css_match.Inputs.parse_value', [itype, 'v'], {}, stubs, None)
+        except Raised:
+            continue
+        except miniev.Unsupported as e:
+            raise AnalysisError(f'Inputs.parse_value({itype!r}): outside the evaluable fragment: {e}')
+        if isinstance(res, (tuple, list)):
+            out.add(itype)
+    return out
+
+
+class GroupTok(str):
+    """A marked group value: remembers the regex and group it stands for."""
+    origin = None
+
+
+def conversion_census(ctx):
+    """{(regex name, group, 'int'|'float', base): {input types}} - the conversions Inputs.parse_value applies to regex groups."""
+    import re._parser as sp
+    from ..interp import Raised, call_function
+    from ..tables import match_obj
+    src, inv = ctx.src, ctx.consts
+    mmod = src.mod('css_match')
+    sample = {'year': '2000', 'month': '01', 'day': '02', 'hour': '10', 'minutes': '30', 'week': '05', 'value': '7'}
+    by_pattern = {r_.pattern: r_ for r_ in inv.regexes if r_.module == 'css_match' and r_.kind == 'module'}
+    out = {}
+    for itype in sorted(RANGE_TYPES):
+        def matcher(rx_obj, text, *a_):
+            r_ = by_pattern.get(rx_obj.get('pattern'))
+            if r_ is None:
+                raise miniev.Unsupported('match on a regex outside the inventory')
+            groups = {}
+            for n_ in sp.parse(r_.pattern, r_.flags).state.groupdict:
+                t = GroupTok(sample.get(n_, '30'))
+                t.origin = (r_.name, n_)
+                groups[n_] = t
+            groups[0] = text
+            return match_obj(groups)
+
+        def conv(kind):
+            def f(x=0, base=10, *a_):
+                if isinstance(x, GroupTok):
+                    out.setdefault((x.origin[0], x.origin[1], kind, base if kind == 'int' else None), set()).add(itype)
+                try:
+                    return int(x, base) if kind == 'int' and isinstance(x, str) else (int(x) if kind == 'int' else float(x))
+                except (ValueError, TypeError):
+                    raise Raised('ValueError')
+            return f
+        stubs = {f'css_match.{q_}': (lambda *a__, **k__: True) for q_ in mmod.functions if q_.startswith('Inputs.validate')}
+        for how in ('match', 'fullmatch'):
+            stubs[f're.Pattern.{how}'] = matcher
+        stubs['int'] = conv('int')
+        stubs['float'] = conv('float')
+        try:
+            call_function(ctx, 'css_match.Inputs.parse_value', [itype, 'v'], {}, stubs, None)
+        except Raised:
+            continue
+        except miniev.Unsupported as e:
+            raise AnalysisError(f'Inputs.parse_value({itype!r}): outside the evaluable fragment: {e}')
+    return out
 
 
 def range_table(ctx, report, r5, mmod, mr, itype_var):
